@@ -333,4 +333,78 @@ Section Acc.
         * intros H. rewrite H in HPf. apply Permutation_nil in HPf. exact HPf.
         * intros H. rewrite H in HPf. apply Permutation_sym in HPf. apply Permutation_nil in HPf. exact HPf.
   Qed.
+  (* ---- the error entries come out in arrival order ---- *)
+  Theorem errors_in_arrival_order n (arrivals : list (msg V)) :
+    snd (merge_run n arrivals) = merge_error (failures_of arrivals).
+  Proof.
+    pose proof (inv_run n arrivals) as (_ & He & _). unfold merge_run, acc_result.
+    destruct (cur (fold_left (@acc_merge V) arrivals (acc_init (Z.of_nat n)))); simpl; rewrite He; reflexivity.
+  Qed.
+
+  (* ---- nil Data ---- *)
+  Definition Inv1 (seen : list (msg V)) (a : acc V) : Prop :=
+    match cur a with
+    | None => payloads_of seen = []
+    | Some r => payloads_of seen <> [] /\ (forall p, payloads_of seen = [p] -> data r = data p)
+    end.
+
+  Lemma inv1_step seen a m : Inv1 seen a -> Inv1 (seen ++ [m]) (acc_merge a m).
+  Proof.
+    unfold Inv1. intros H. destruct m as [q|e]; simpl.
+    - rewrite payloads_snoc_P. destruct (cur a) as [r|].
+      + destruct H as [Hne _]. split.
+        * intros E. apply app_eq_nil in E. destruct E; discriminate.
+        * intros p E. exfalso. destruct (payloads_of seen) as [|x [|y l]]; simpl in E; try congruence; discriminate.
+      + rewrite H. simpl. split; [discriminate|]. intros p E. inversion E; reflexivity.
+    - rewrite payloads_snoc_F. destruct (cur a) as [r|]; auto.
+  Qed.
+
+  Lemma inv1_fold : forall ms seen a, Inv1 seen a -> Inv1 (seen ++ ms) (fold_left (@acc_merge V) ms a).
+  Proof.
+    induction ms as [|m ms IH]; simpl; intros seen a H.
+    - rewrite app_nil_r. exact H.
+    - replace (seen ++ m :: ms) with ((seen ++ [m]) ++ ms) by (rewrite <- app_assoc; reflexivity).
+      apply IH. apply inv1_step. exact H.
+  Qed.
+
+  (* the Data map of the response is nil exactly when one single backend answered and the
+     Data of its payload was nil (every later payload goes through combineData, which never
+     returns nil Data) *)
+  Theorem data_nil_iff n (arrivals : list (msg V)) x :
+    fst (merge_run n arrivals) = Some x ->
+    (data x = None <-> exists p, payloads_of arrivals = [p] /\ data p = None).
+  Proof.
+    pose proof (inv_run n arrivals) as (_ & _ & Hc).
+    pose proof (inv1_fold arrivals [] (acc_init (Z.of_nat n)) eq_refl) as H1. simpl in H1.
+    unfold merge_run, acc_result, Inv1 in *.
+    destruct (cur (fold_left (@acc_merge V) arrivals (acc_init (Z.of_nat n)))) as [r|]; simpl; [|discriminate].
+    intros Hx. destruct Hc as (Hne & _ & _ & Hd & _). destruct H1 as [_ H1].
+    assert (Hdx : data x = data r).
+    { inversion Hx. destruct (negb (pending _ =? 0)%Z || negb (is_nil (errs _))); reflexivity. }
+    rewrite Hdx. split.
+    - intros Hn. destruct (payloads_of arrivals) as [|p [|q l]] eqn:E.
+      + congruence.
+      + exists p. split; auto. rewrite <- (H1 p eq_refl). exact Hn.
+      + exfalso. apply Hd; auto. simpl. lia.
+    - intros [p [E Hp]]. rewrite (H1 p E). exact Hp.
+  Qed.
+
+  (* ---- requestPart ---- *)
+  Lemma request_part_msg_of (o : outcome V) (choice : option ekind) :
+    request_part (return_of o) choice = msg_of (effective o choice).
+  Proof. destruct o as [c d|e| |dl|e c d], choice; reflexivity. Qed.
+
+  (* the property for what the backends RETURNED and how each goroutine's select went *)
+  Theorem merge_spec_from_returns (ocs : list (outcome V * option ekind)) (arrivals : list (msg V)) :
+    Permutation arrivals (map (fun oc => request_part (return_of (fst oc)) (snd oc)) ocs) ->
+    2 <= List.length ocs ->
+    merge_spec eq (map (fun oc => effective (fst oc) (snd oc)) ocs) (merge_run (List.length ocs) arrivals).
+  Proof.
+    intros HP Hl.
+    replace (List.length ocs) with (List.length (map (fun oc => effective (fst oc) (snd oc)) ocs))
+      by apply map_length.
+    apply merge_spec_all_orders; [|rewrite map_length; exact Hl].
+    rewrite map_map. erewrite map_ext; [exact HP|].
+    intros [o c]. simpl. symmetry. apply request_part_msg_of.
+  Qed.
 End Acc.
